@@ -204,7 +204,15 @@ def single_defs(fnode):
                     counts[x.id] = counts.get(x.id, 0) + 2
         elif isinstance(n, ast.arg):
             counts[n.arg] = counts.get(n.arg, 0) + 2
-    return {k: v for k, v in defs.items() if counts.get(k) == 1}
+    pure = {k: v for k, v in defs.items() if counts.get(k) == 1
+            and not isinstance(v, (ast.List, ast.Dict, ast.Set, ast.ListComp, ast.DictComp, ast.SetComp))}
+    # a local that is later mutated in place is not its definition any more
+    mutated = set()
+    for n in ast.walk(fnode):
+        if isinstance(n, ast.Call) and isinstance(n.func, ast.Attribute) and isinstance(n.func.value, ast.Name) \
+                and n.func.attr in ('append', 'extend', 'insert', 'remove', 'pop', 'clear', 'update', 'sort', 'reverse'):
+            mutated.add(n.func.value.id)
+    return {k: v for k, v in pure.items() if k not in mutated}
 
 
 def affine_of(expr, defs=None, depth=0, lens=None):
@@ -265,6 +273,5 @@ def canon_text(expr, defs=None, depth=0):
                 import copy
                 return ast.parse('(%s)' % canon_text(defs[node.id], defs, depth + 1), mode='eval').body
             return node
-    import copy
-    e = Sub().visit(copy.deepcopy(expr))
+    e = Sub().visit(ast.parse(ast.unparse(expr), mode='eval').body)
     return ast.unparse(e)
